@@ -206,6 +206,32 @@ fn call(entry: &str, data: &[u8]) -> Outcome {
             };
             okerr(f.sm9_msk.verify_sign(b"Alice", b"Chinese IBS standard", &h, &s))
         }
+        "zuc.new.key" => {
+            let _ = gm_zuc::ZUC::new(data, &[0x5au8; 16]).generate_keystream(2);
+            Outcome::Ok
+        }
+        "zuc.new.iv" => {
+            let _ = gm_zuc::ZUC::new(&[0x5au8; 16], data).generate_keystream(2);
+            Outcome::Ok
+        }
+        "zuc.eea.new" => {
+            let _ = gm_zuc::eea::EEA::new(data, 0x66035492, 0xf, 0).encrypt(&[0u32; 4], 100);
+            Outcome::Ok
+        }
+        "zuc.eia.new" => {
+            let _ = gm_zuc::eia::EIA::new(data, 0x66035492, 0xf, 0).gen_mac(&[0u32; 4], 100);
+            Outcome::Ok
+        }
+        "zuc.eea.encrypt.buffer" | "zuc.eia.gen_mac.buffer" => {
+            // LENGTH = 200 bits (7 words); the buffer holds len/4 words
+            let words: Vec<u32> = data.chunks(4).filter(|c| c.len() == 4).map(|c| u32::from_be_bytes(c.try_into().unwrap())).collect();
+            if parts[0] == "zuc.eea.encrypt.buffer" {
+                let _ = gm_zuc::eea::EEA::new(&[0x5au8; 16], 1, 2, 1).encrypt(&words, 200);
+            } else {
+                let _ = gm_zuc::eia::EIA::new(&[0x5au8; 16], 1, 2, 1).gen_mac(&words, 200);
+            }
+            Outcome::Ok
+        }
         "sm9.mod_n_from_hash" => {
             let _ = gm_sm9::fields::mod_n_from_hash(data);
             Outcome::Ok
@@ -240,7 +266,9 @@ fn record(ctx: &Ctx, c: &Case, o: &Outcome) {
     match o {
         Outcome::Ok => ctx.outcome(&format!("ok/{}", c.entry)),
         Outcome::Err => ctx.outcome(&format!("err/{}", c.entry)),
-        Outcome::Panic(p) => ctx.violation(&c.entry, &format!("panic/{}/{}", panic_site(p), c.family), format!("len={} data={} {}", c.data.len() / 2, truncate(&c.data, 80), p), cj()),
+        // the class names the entry point's input family, not the panic location: a known finding must not be
+        // re-keyed by a refactoring that moves the panic to another file
+        Outcome::Panic(p) => ctx.violation(&c.entry, &format!("panic/{}", c.family), format!("len={} data={} {}", c.data.len() / 2, truncate(&c.data, 80), p), cj()),
         Outcome::Timeout => ctx.violation(&c.entry, &format!("does-not-terminate/{}", c.family), format!("no result within the watchdog limit; data={}", truncate(&c.data, 80)), cj()),
         Outcome::Abort => ctx.violation(&c.entry, &format!("process-abort/{}", c.family), format!("child process died; data={}", truncate(&c.data, 80)), cj()),
     }
@@ -282,6 +310,12 @@ fn cases(tier: Tier, seed: u64) -> Vec<Case> {
         ("sm4.mode.new".into(), vec![f.sm4_key.to_vec()], 200),
         ("sm9.decrypt".into(), vec![f.sm9_ct.clone()], 400),
         ("sm9.mod_n_from_hash".into(), vec![vec![0xabu8; 40]], 200),
+        ("zuc.new.key".into(), vec![vec![0x3du8; 16]], 40),
+        ("zuc.new.iv".into(), vec![vec![0x84u8; 16]], 40),
+        ("zuc.eea.new".into(), vec![vec![0x17u8; 16]], 40),
+        ("zuc.eia.new".into(), vec![vec![0xc9u8; 16]], 40),
+        ("zuc.eea.encrypt.buffer".into(), vec![vec![0x6cu8; 28]], 60),
+        ("zuc.eia.gen_mac.buffer".into(), vec![vec![0x98u8; 28]], 60),
     ];
     for (o, c, ct) in &f.cts {
         table.push((format!("sm2.decrypt/{}/{}", if *o { "C1C3C2" } else { "C1C2C3" }, if *c { "compressed" } else { "uncompressed" }), vec![ct.clone()], 200));
@@ -459,7 +493,7 @@ pub fn run(ctx: &Arc<Ctx>) {
     refmodels::selftest::run(&["sm3", "sm2", "sm9"]).unwrap_or_else(|e| ctx.machinery_error(format!("reference self-test failed: {}", e)));
     let cs = Arc::new(cases(ctx.tier, ctx.seed));
     let limit = Duration::from_secs(ctx.tier.pick(5, 10));
-    ctx.set_rule("entry points: SM2 verify (signature and message), raw decryption (2 orders x 2 encodings), ASN.1 decryption, public/private key decoders for bytes, hex, DER and PEM, SM4 cipher construction, block encrypt/decrypt, mode construction and mode decryption (data and IV), SM9 decryption, SM9 verification (h and S from bytes, affine / Jacobian / infinity), mod_n_from_hash, the SM2 KDF; per byte-string parameter every length 0..=200 (0..=400 for SM9 decryption) x {0x00, 0xFF, seeded}; for each valid encoding every truncation, every single-byte corruption (4 kinds per position) and trailing bytes; hex strings of every length 0..=140 and a non-hex character at every position; PEM truncations and corruptions; boundary private keys {0,1,n-2,n-1,n,2^256-1}: whatever the constructor accepts must sign, encrypt, decrypt and run a key agreement to completion. Each call runs in a child process under panic capture and a wall-clock watchdog. Oracle: outcome in {Ok, Err}; panic, overflow, abort and time-out are violations (whether an Ok was deserved is judged by C04/C06/C07/C19).");
+    ctx.set_rule("entry points: SM2 verify (signature and message), raw decryption (2 orders x 2 encodings), ASN.1 decryption, public/private key decoders for bytes, hex, DER and PEM, SM4 cipher construction, block encrypt/decrypt, mode construction and mode decryption (data and IV), SM9 decryption, SM9 verification (h and S from bytes, affine / Jacobian / infinity), mod_n_from_hash, the SM2 KDF, and (the property's anchors name eea.rs / eia.rs) ZUC / EEA3 / EIA3 construction from key and IV bytes and message buffers shorter than LENGTH; per byte-string parameter every length 0..=200 (0..=400 for SM9 decryption) x {0x00, 0xFF, seeded}; for each valid encoding every truncation, every single-byte corruption (4 kinds per position) and trailing bytes; hex strings of every length 0..=140 and a non-hex character at every position; PEM truncations and corruptions; boundary private keys {0,1,n-2,n-1,n,2^256-1}: whatever the constructor accepts must sign, encrypt, decrypt and run a key agreement to completion. Each call runs in a child process under panic capture and a wall-clock watchdog. Oracle: outcome in {Ok, Err}; panic, overflow, abort and time-out are violations (whether an Ok was deserved is judged by C04/C06/C07/C19).");
     ctx.note_bound(format!("{} calls, watchdog {} s per call", cs.len(), limit.as_secs()));
     ctx.sample(serde_json::to_value(&cs[10]).unwrap());
     ctx.sample(serde_json::to_value(&cs[cs.len() - 1]).unwrap());
